@@ -1,0 +1,88 @@
+//! Verification hooks.
+//!
+//! Compiled only with `RUSTFLAGS="--cfg rsdns_verif"`. This module re-exports or wraps
+//! crate-private items so that an external correspondence harness can drive them with
+//! caller-chosen buffers. It adds no behaviour and changes no existing item.
+#![allow(missing_docs)]
+
+pub use crate::bytes::{Cursor, Reader, RrDataReader};
+
+use crate::{
+    message::reader::{Labels, NameRef},
+    names::DName,
+    Result,
+};
+
+/// `read_domain_name::<N>` on a caller-positioned cursor.
+pub fn read_domain_name<N: DName>(c: &mut Cursor<'_>) -> Result<N> {
+    crate::message::reader::read_domain_name(c)
+}
+
+/// `skip_domain_name` on a caller-positioned cursor.
+pub fn skip_domain_name(c: &mut Cursor<'_>) -> Result<usize> {
+    crate::message::reader::skip_domain_name(c)
+}
+
+/// `Labels::new(Cursor::with_pos(buf, pos))`.
+pub fn labels_at(buf: &[u8], pos: usize) -> Labels<'_> {
+    Labels::new(Cursor::with_pos(buf, pos))
+}
+
+/// `NameRef::new(Cursor::with_pos(buf, pos))`.
+pub fn name_ref_at(buf: &[u8], pos: usize) -> NameRef<'_> {
+    NameRef::new(Cursor::with_pos(buf, pos))
+}
+
+/// `names::check_label_bytes`.
+pub fn check_label_bytes(label: &[u8]) -> Result<()> {
+    crate::names::check_label_bytes(label)
+}
+
+/// `names::check_name_bytes`.
+pub fn check_name_bytes(name: &[u8]) -> Result<()> {
+    crate::names::check_name_bytes(name)
+}
+
+#[cfg(any(
+    feature = "net-async-std",
+    feature = "net-smol",
+    feature = "net-std",
+    feature = "net-tokio"
+))]
+mod client_side {
+    use crate::{
+        bytes::WCursor,
+        message::QueryWriter,
+        records::{Class, Opt, Type},
+        Result,
+    };
+
+    /// `WCursor::new(buf).write_domain_name_bytes(name)`.
+    pub fn write_domain_name(buf: &mut [u8], name: &[u8]) -> Result<usize> {
+        WCursor::new(buf).write_domain_name_bytes(name)
+    }
+
+    /// `QueryWriter::new(buf).write(..)`; returns the random message id as well.
+    /// `opt` is `(version, udp_payload_size)`.
+    pub fn query_write(
+        buf: &mut [u8],
+        qname: &str,
+        qtype: Type,
+        qclass: Class,
+        recursion_desired: bool,
+        opt: Option<(u8, u16)>,
+    ) -> (u16, Result<usize>) {
+        let mut qw = QueryWriter::new(buf);
+        let id = qw.message_id();
+        let opt = opt.map(|(version, payload)| Opt::new(version, payload));
+        (id, qw.write(qname, qtype, qclass, recursion_desired, opt))
+    }
+}
+
+#[cfg(any(
+    feature = "net-async-std",
+    feature = "net-smol",
+    feature = "net-std",
+    feature = "net-tokio"
+))]
+pub use client_side::*;
